@@ -39,6 +39,7 @@ from ttconv.filters.isd.supported_style_properties import SupportedStyleProperti
 from ttconv.isd import ISD
 from ttconv.vtt.cue import VttCue
 from ttconv.vtt.css_class import CssClass
+from ttconv.time_code import ClockTime
 from ttconv.style_properties import DirectionType, ExtentType, PositionType, StyleProperties, FontStyleType, NamedColors, \
                                     FontWeightType, TextDecorationType, DisplayAlignType, TextAlignType
 
@@ -226,6 +227,11 @@ class VttContext:
       float(begin),
       float(end) if end is not None else "unbounded"
     )
+
+    if end is not None and ClockTime.from_seconds(end) == ClockTime.from_seconds(begin):
+      # the interval is empty once its ends are rounded to the millisecond
+      LOGGER.debug("Skipping ISD shorter than a millisecond.")
+      return
 
     # filter the ISD to remove unsupported features
 
